@@ -350,6 +350,9 @@ pub struct NetworkView {
     pub validator_addrs:
         Vec<std::sync::Arc<zksync_consensus_roles::validator::Signed<zksync_consensus_roles::validator::NetAddress>>>,
     pub fetch_queue: Vec<u64>,
+    /// TCP peer address of the connection holding each inbound pool entry.
+    pub consensus_inbound_addrs: Vec<(zksync_consensus_roles::validator::PublicKey, std::net::SocketAddr)>,
+    pub gossip_inbound_addrs: Vec<(zksync_consensus_roles::node::PublicKey, std::net::SocketAddr)>,
 }
 
 pub fn view(net: &crate::Network) -> NetworkView {
@@ -367,6 +370,11 @@ pub fn view(net: &crate::Network) -> NetworkView {
         gossip_outbound: net.gossip.outbound.current().keys().cloned().collect(),
         validator_addrs: net.gossip.validator_addrs.current().values().cloned().collect(),
         fetch_queue: net.gossip.fetch_queue.current_blocks(),
+        consensus_inbound_addrs: match &net.consensus {
+            Some(c) => c.inbound.current().iter().map(|(k, v)| (k.clone(), v.peer_addr)).collect(),
+            None => vec![],
+        },
+        gossip_inbound_addrs: net.gossip.inbound.current().iter().map(|(k, v)| (k.clone(), v.stats.peer_addr)).collect(),
     }
 }
 
